@@ -1,6 +1,6 @@
 From Coq Require Import ZArith List Bool.
 Import ListNotations.
-From GV Require Import C19.Model C19.Lemmas.
+From GV Require Import C19.Model C19.Lemmas gen.Gen_exporters C19.GenEquiv.
 Open Scope Z_scope.
 
 (* Row filtering (CSV, FITS table, VO table; HDF5 for 1-d data): the written table consists of exactly the exportable
@@ -46,3 +46,78 @@ Theorem roundtrip_modulo_codec :
   dec fmt (export_file file enc fmt ndim omask blank cols) = normalise fmt (spec_table fmt ndim omask blank cols).
 Proof. exact Lemmas.roundtrip_modulo_codec. Qed.
 Print Assumptions roundtrip_modulo_codec.
+
+(* ======== the exporters TRANSLATED from the current source (coq/gen/Gen_exporters.v, regenerated on every run) ======== *)
+
+(* data_to_astropy_table, hdf5_writer and fits_writer as translated statement by statement from glue/core/data_exporters
+   compute, for every dataset of component records, subset mask and components= filter, exactly the hand model's export
+   of the listed components (gen_export projects the written arrays to name / kind / values; for HDF5 the unicode text
+   columns are the ASCII-encoded ones).  wf_data: the dtype kinds the exporters handle (f, i, S, and U for categorical
+   components; numerical = f or i for gridded FITS, whose integer components share one BLANK in the hand model). *)
+Theorem gen_export_is_model : forall fmt enc sub data comps blank,
+  0 <= fmt <= 4 -> wf_data fmt blank data ->
+  gen_export fmt enc sub data comps = Some (export fmt (ds_ndim data) sub blank (columns_of fmt enc data comps)).
+Proof. exact GenEquiv.gen_export_is_model. Qed.
+Print Assumptions gen_export_is_model.
+
+(* export_selects_rows for the translated functions: with row filtering they write exactly the listed exportable components,
+   main then derived, and every column is the values of the ORIGINAL full column at exactly the selected positions. *)
+Theorem gen_export_selects_rows : forall fmt enc m data comps blank,
+  0 <= fmt <= 4 -> wf_data fmt blank data ->
+  row_mode fmt (ds_ndim data) = true ->
+  (forall d, In d (ds_cols data) -> length m = length (full data d)) ->
+  let cols := columns_of fmt enc data comps in
+  gen_export fmt enc (Some m) data comps =
+  Some (map (fun c => (c_name c, c_kind c, pick (c_vals c) (true_idx m)))
+            (filter (exportable fmt) (filter (fun c => negb (c_derived c)) cols ++ filter c_derived cols)))
+  /\ (forall i, In i (true_idx m) <-> (i < length m)%nat /\ nth i m false = true).
+Proof. exact GenEquiv.gen_export_selects_rows. Qed.
+Print Assumptions gen_export_selects_rows.
+
+(* export_masks_pixels for the translated functions (n-d HDF5, gridded FITS). *)
+Theorem gen_export_masks_pixels : forall fmt enc m data comps blank,
+  0 <= fmt <= 4 -> wf_data fmt blank data ->
+  row_mode fmt (ds_ndim data) = false ->
+  (forall d, In d (ds_cols data) -> length m = length (full data d)) ->
+  let cols := columns_of fmt enc data comps in
+  exists out, gen_export fmt enc (Some m) data comps = Some out /\
+  map (fun w => fst (fst w)) out =
+    map c_name (filter (exportable fmt) (filter (fun c => negb (c_derived c)) cols ++ filter c_derived cols)) /\
+  forall c, In c (filter (exportable fmt) (ordered cols)) ->
+    let w := export_col fmt (ds_ndim data) (Some m) blank c in
+    In w out /\ length (snd w) = length (c_vals c) /\
+    forall i, (i < length (c_vals c))%nat ->
+      nth i (snd w) 0 = if nth i m false then nth i (c_vals c) 0 else fill_of fmt (c_kind c) blank.
+Proof. exact GenEquiv.gen_export_masks_pixels. Qed.
+Print Assumptions gen_export_masks_pixels.
+
+(* roundtrip_modulo_codec for the translated functions. *)
+Theorem gen_roundtrip_modulo_codec :
+  forall (file : Type) (encf : Z -> list wcol -> file) (dec : Z -> file -> list wcol) (normalise : Z -> list wcol -> list wcol),
+  (forall fmt t, dec fmt (encf fmt t) = normalise fmt t) ->
+  forall fmt enc sub data comps blank,
+  0 <= fmt <= 4 -> wf_data fmt blank data -> gen_shaped sub data ->
+  exists out, gen_export fmt enc sub data comps = Some out /\
+  dec fmt (encf fmt out) = normalise fmt (spec_table fmt (ds_ndim data) sub blank (columns_of fmt enc data comps)).
+Proof. exact GenEquiv.gen_roundtrip_modulo_codec. Qed.
+Print Assumptions gen_roundtrip_modulo_codec.
+
+(* The translated table exporter writes, for a subset, the selected rows of the full column d_fn (d_srcs) of every listed
+   component: a derived component's link function sees the WHOLE source columns, the selection comes afterwards. *)
+Theorem gen_table_selects_from_full_columns : forall enc m data comps,
+  data_to_astropy_table enc (Some m) data comps =
+  Some (map (fun c => (d_name c, mkA (d_kind c) 1 (d_imin c) (select m (d_fn c (d_srcs c)))))
+            (filter (listed comps) (filter (fun c => negb (d_derived c)) (ds_cols data) ++ filter d_derived (ds_cols data)))).
+Proof. exact GenEquiv.gen_table_selects_from_full_columns. Qed.
+Print Assumptions gen_table_selects_from_full_columns.
+
+(* The translated gridded-FITS exporter writes the BLANK keyword exactly on the integer images of a subset, with
+   iinfo(dtype).min of that component's own dtype. *)
+Theorem gen_fits_blank_keyword : forall enc sub data comps,
+  (forall c, In c (ds_cols data) -> wf_fits c) ->
+  exists hdus, fits_writer enc sub data comps = Some hdus /\
+  map (fun w : whdu => h_blank (snd w)) hdus =
+  map (fun c => if (d_kind c =? KINT) && is_subset sub then Some (d_imin c) else None)
+      (filter (fun c => d_gkind c =? GNUM) (filter (listed comps) (main_components data ++ derived_components data))).
+Proof. exact GenEquiv.gen_fits_blank_keyword. Qed.
+Print Assumptions gen_fits_blank_keyword.
